@@ -988,7 +988,7 @@ class FuncCeiling(ValueFunc):
     def execute(self, args, environment, pos):
         if args.isNull("x"):
             return NULL
-        return ValueDecimal(math.ceil(args.getNumerical("x").value))
+        return ValueDecimal(float(math.ceil(args.getNumerical("x").value)))
 
 
 class FuncChr(ValueFunc):
@@ -1792,7 +1792,7 @@ class FuncFloor(ValueFunc):
     def execute(self, args, environment, pos):
         if args.isNull("x"):
             return NULL
-        return ValueDecimal(math.floor(args.getNumerical("x").value))
+        return ValueDecimal(float(math.floor(args.getNumerical("x").value)))
 
 
 class FuncFormatDate(ValueFunc):
